@@ -143,6 +143,97 @@ Section WithEnv.
       rewrite B1, B2, B3, B4, B5, B6, B7, B8, B9, B10, B13. unfold r2. cbn. repeat split; assumption.
   Qed.
 
+  Theorem section_load_reports_lazy st enc c idx (pos : N) s' :
+    is_fail st = false -> st_inv st -> pos < 2 ^ 63 -> pos + shdr_size c <= lenN (is_content st) ->
+    s_cls s' = c -> shdr_wf s' ->
+    sliceN (is_content st) pos (shdr_size c) = shdr_bytes enc s' ->
+    exists st' r al,
+      section_load junk st [] enc (with_index (new_section c) idx) (Z.of_N pos) true = Ok (st', r, al) /\
+      is_fail st' = false /\ st_inv st' /\ is_content st' = is_content st /\ is_kind st' = is_kind st /\
+      s_data r = None /\ s_stream_size r = lenN (is_content st) /\ s_cls r = c /\ al = [] /\
+      sh_name r = sh_name s' /\ sh_type r = sh_type s' /\ sh_flags r = sh_flags s' /\ sh_addr r = sh_addr s' /\
+      sh_offset r = sh_offset s' /\ sh_size r = sh_size s' /\ sh_link r = sh_link s' /\ sh_info r = sh_info s' /\
+      sh_addralign r = sh_addralign s' /\ sh_entsize r = sh_entsize s' /\ s_index r = idx.
+  Proof.
+    intros Hf Hi Hp Hin Hc Hwf Hsl. rewrite section_load_unfold. cbn [xlat_empty xlat_apply].
+    unfold section_load_rest. cbn [xlat_apply]. set (s0 := with_index (new_section c) idx).
+    assert (E1 : seekg_end st = mkIstream (is_kind st) (is_content st) (is_len st) false (is_len st)).
+    { unfold seekg_end. now rewrite Hf. }
+    rewrite E1. set (st1 := mkIstream (is_kind st) (is_content st) (is_len st) false (is_len st)).
+    assert (Hz : Z.of_N pos = to_signed64 pos).
+    { unfold to_signed64. rewrite N.mod_small by lia. destruct (N.ltb_spec pos (2 ^ 63)); lia. }
+    rewrite Hz.
+    destruct (seek_read st1 pos (shdr_size c) eq_refl Hi Hp Hin) as [R1 R2].
+    change (s_cls s0) with c.
+    destruct (read (seekg st1 (to_signed64 pos)) (shdr_size c)) as [st3 got] eqn:ER. cbn [fst snd] in R1, R2.
+    change (is_content st1) with (is_content st) in R1. subst got. rewrite Hsl.
+    assert (FS : fill_struct (shdr_bytes enc s0) (shdr_bytes enc s') = shdr_bytes enc s').
+    { unfold fill_struct. rewrite skipnN_all; [apply app_nil_r|]. rewrite !lenN_shdr_bytes, Hc. cbn. lia. }
+    rewrite FS.
+    set (r1 := sec_with_raw enc (with_stream_size s0 (tellg_size st1)) (shdr_bytes enc s')).
+    destruct (shdr_roundtrip enc (with_stream_size s0 (tellg_size st1)) s' ltac:(cbn; congruence) Hwf)
+      as (A1 & A2 & A3 & A4 & A5 & A6 & A7 & A8 & A9 & A10). cbv zeta in *. fold r1 in A1, A2, A3, A4, A5, A6, A7, A8, A9, A10.
+    set (r2 := with_load_flags r1 true (s_loaded r1) (s_can_load r1)).
+    cbn [orb]. exists st3, r2, []. split; [reflexivity|].
+    pose proof (read_content (seekg st1 (to_signed64 pos)) (shdr_size c)) as (M1 & M2 & M3). rewrite ER in M1, M2, M3. cbn [fst] in *.
+    pose proof (seekg_content st1 (to_signed64 pos)) as (N1 & N2 & N3).
+    split; [exact R2|]. split; [unfold st_inv in *; cbn in *; congruence|]. split; [cbn in *; congruence|]. split; [cbn in *; congruence|].
+    split; [reflexivity|]. split; [unfold r2, r1; cbn; unfold tellg_size; cbn; exact Hi|]. split; [reflexivity|]. split; [reflexivity|].
+    unfold r2. cbn. repeat split; assumption.
+  Qed.
+
+  (* the whole section header table: every entry is reported, in order *)
+  Definition same_hdr (s r : section) : Prop :=
+    sh_name r = sh_name s /\ sh_type r = sh_type s /\ sh_flags r = sh_flags s /\ sh_addr r = sh_addr s /\
+    sh_offset r = sh_offset s /\ sh_size r = sh_size s /\ sh_link r = sh_link s /\ sh_info r = sh_info s /\
+    sh_addralign r = sh_addralign s /\ sh_entsize r = sh_entsize s.
+
+  Lemma table_pos_plain shoff i es : shoff < 2 ^ 63 -> table_pos shoff i es = Z.of_N (shoff + i * es).
+  Proof.
+    intros H. unfold table_pos, to_signed64. rewrite N.mod_small by lia.
+    destruct (N.ltb_spec shoff (2 ^ 63)); lia.
+  Qed.
+
+  Theorem load_sections_loop_reports enc c shoff es : forall (secs : list section) fuel st i racc allocs,
+    is_fail st = false -> st_inv st -> shoff < 2 ^ 62 -> shdr_size c <= es ->
+    shoff + (i + lenN secs) * es < 2 ^ 62 -> shoff + (i + lenN secs) * es <= lenN (is_content st) ->
+    Forall (fun s => s_cls s = c /\ shdr_wf s) secs ->
+    (forall k s, nth_optN secs k = Some s -> sliceN (is_content st) (shoff + (i + k) * es) (shdr_size c) = shdr_bytes enc s) ->
+    (length secs <= fuel)%nat ->
+    exists st' loaded,
+      load_sections_loop junk fuel st [] c enc shoff es i (i + lenN secs) true racc allocs = Ok (st', rev loaded ++ racc, allocs) /\
+      is_fail st' = false /\ st_inv st' /\ is_content st' = is_content st /\
+      Forall2 same_hdr secs loaded /\
+      Forall (fun r => s_data r = None /\ s_stream_size r = lenN (is_content st) /\ s_cls r = c) loaded.
+  Proof.
+    induction secs as [|s t IH]; intros fuel st i racc allocs Hf Hi H62 Hes Hb1 Hb2 Hwf Hsl Hfuel.
+    - cbn [lenN] in *. rewrite N.add_0_r. exists st, []. cbn [rev app].
+      destruct fuel; cbn [load_sections_loop]; [|rewrite N.ltb_irrefl]; repeat split; auto.
+    - rewrite lenN_cons in *. destruct fuel as [|f]; [cbn in Hfuel; lia|]. cbn [length] in Hfuel.
+      inversion Hwf as [|? ? [Hc Hw] Hwt]; subst.
+      cbn [load_sections_loop]. destruct (N.ltb_spec i (i + (1 + lenN t))); [|lia].
+      rewrite table_pos_plain by lia.
+      assert (Hs0 : sliceN (is_content st) (shoff + i * es) (shdr_size (s_cls s)) = shdr_bytes enc s).
+      { specialize (Hsl 0 s eq_refl). now rewrite N.add_0_r in Hsl. }
+      destruct (section_load_reports_lazy st enc (s_cls s) (wrap16 i) (shoff + i * es) s Hf Hi) as
+        (st1 & r & al & -> & F1 & I1 & C1 & K1 & D1 & SS1 & CL1 & -> & A1 & A2 & A3 & A4 & A5 & A6 & A7 & A8 & A9 & A10 & A11);
+        [nia|nia|reflexivity|exact Hw|exact Hs0|].
+      cbn [bind app].
+      set (r' := with_addr r (sh_addr r)).
+      replace (i + (1 + lenN t)) with ((i + 1) + lenN t) by lia.
+      destruct (IH f st1 (i + 1) (r' :: racc) allocs F1 I1 H62 Hes) as (st' & loaded & -> & F' & I' & C' & H2 & H3).
+      + lia. + rewrite C1. lia. + exact Hwt.
+      + intros k s' Hk. rewrite C1. replace (i + 1 + k) with (i + (k + 1)) by lia. apply Hsl.
+        cbn [nth_optN]. destruct (N.eqb_spec (k + 1) 0); [lia|]. now replace (k + 1 - 1) with k by lia.
+      + lia.
+      + exists st', (r' :: loaded). cbn [rev]. rewrite <- app_assoc. cbn [app].
+        split; [reflexivity|]. split; [exact F'|]. split; [exact I'|]. split; [congruence|]. split.
+        * constructor; [|exact H2]. unfold same_hdr, r'. cbn [sh_name sh_type sh_flags sh_addr sh_offset sh_size sh_link sh_info sh_addralign sh_entsize with_addr].
+          destruct Hw as (_ & _ & _ & Hwa & _). rewrite CL1. unfold wrap. rewrite N.mod_small by (rewrite A4; unfold fw in Hwa; destruct (s_cls s); exact Hwa).
+          repeat split; assumption.
+        * constructor; [|rewrite <- C1; exact H3]. unfold r'. cbn. rewrite CL1. auto.
+  Qed.
+
   (* a section's name is the NUL-terminated string found at its name offset in
      the section-name string table *)
   Theorem name_is_cstring_at_offset (b : bytes) size idx nm :
